@@ -414,7 +414,7 @@ def check_C11(tier, seed):
     res.notes["pairs_selected"] = len(pairs)
     if not q:
         # every ordered pair of the 1 151 day notations: TLC prints, per pair, the verdict at every decision breakpoint of d
-        # (16 JVMs, each a range of start ids); a native sweep calls the real constructor at each of them through six splits
+        # (16 JVMs, each a range of start ids); a native sweep calls the real constructor at each of them through eight splits
         import subprocess
         table = os.path.join(C.OUT, "C11-allpairs.ndjson")
         bounds = [(1 + i * 72, min(1151, (i + 1) * 72)) for i in range(16)]
